@@ -425,11 +425,19 @@ class Gen:
         lhs_arr = None
         q = r.random()
         if with_dim:
-            # 1-D array argument: scalar result; 2-D: array result
+            # 1-D array argument: scalar result; 2-D: array result of the remaining extent
             rank2 = key[0] == "s2" or (key[0] == "w" and key[1] in "de")
             if rank2:
-                return ("assign", "a", [], call) if r.random() < 0.5 else \
-                    ("assign", "a", [("rng", lb_of("a"), ub_of("a"), L(1))], call)
+                if key[0] == "s2":
+                    exts = (key[1], key[2])
+                else:
+                    exts = tuple(u - l + 1 for l, u in self.arrays[key[1]])
+                rext = exts[1] if dim[1] == 1 else exts[0]
+                tgt = r.choice("abc")
+                got = self.sec1(tgt, 1, rext, 1)
+                if got is None:
+                    return ("assign", "x", [], ("red", kind, arr, None, mask))
+                return ("assign", tgt, [got[0]], call)
             return ("assign", "x", [], call)
         if q < 0.4:
             rhs = call
